@@ -285,6 +285,18 @@ theorem hab_ecc_item_roundtrip (cv : Curve) (x y : Nat) (ca : Bool) (hx : x < 25
       habEccParse (b ++ rest) = .ok { keySize := cv.bits, x := x, y := y, flag := caFlag ca } :=
   ⟨_, habEccExport_curve cv x y ca hx hy, habEccParse_item cv x y ca hx hy rest⟩
 
+/-- …and for EVERY item the constructor and `export` accept, not only keys on the three curves: any key size of the generated
+    `get_ecc_curve(key_size // 8)` table (0..535 and 768..775 - e.g. 512..519 are written with the P-256 curve id), both flag values, all
+    coordinates that fit `ceil(key_size / 8)` bytes: `parse (export item ‖ rest) = item` -/
+theorem hab_ecc_item_roundtrip_any (it : HabEccItem) (b : Bytes) (h : habEccExport it = .ok b) (rest : Bytes) :
+    habEccParse (b ++ rest) = .ok it :=
+  habEccParse_export_any it b h rest
+
+set_option maxRecDepth 20000 in
+/-- non-vacuity: an item with the odd key size 515 (exported with the P-256 id 0x4B, 65-byte coordinates) -/
+example : ∃ b, habEccExport { keySize := 515, x := 5, y := 6, flag := 0x80 } = .ok b ∧ b.length = 142 ∧ b.take 12 = [0xE1, 0, 142, 0x27, 0, 0, 0, 0x80, 0x4B, 0, 2, 3] :=
+  ⟨_, rfl, by decide, by decide⟩
+
 /-- non-vacuity: a short X (leading zero bytes) and a full-width Y on P-521 -/
 example : (7 : Nat) < 256 ^ Curve.p521.coordSize ∧ (2 ^ 250 * 2 ^ 250 * 2 ^ 20 + 1 : Nat) < 256 ^ Curve.p521.coordSize := by decide +kernel
 
@@ -701,6 +713,45 @@ theorem certblock_v1_parse_export_refuted :
     ∃ (data : Bytes) (cb : CertBlockV1), parseV1Block (fun _ => true) data = .ok cb ∧ exportV1Block true cb = .error .spsdk :=
   ⟨[0x63, 0x65, 0x72, 0x74, 1, 0, 0, 0, 32, 0, 0, 0] ++ List.replicate 20 0 ++ List.replicate 128 7,
    ⟨1, 0, 0, 0, 0, [], [List.replicate 32 7, List.replicate 32 7, List.replicate 32 7, List.replicate 32 7], 16⟩, rfl, rfl⟩
+
+/-- root key record of certificate block v2.1, ANY input `RootKeyRecord.parse` accepts that is at least as long as the record its own flags word
+    announces (4 + [count × hash length, if count > 1] + 2 × hash length): re-exporting the parsed record gives exactly the `n` bytes the parser
+    reports as consumed, and `n` is that announced size.  (Inputs shorter than announced are accepted too - the slices just come out short; they
+    are outside this theorem, no refuting example is known for them.) -/
+theorem rkr_parse_canonical (b : Bytes) (r : RootKeyRecord) (n : Nat) (h : rkrParse c b = .ok (r, n)) (hl : Nat)
+    (hhl : lookupOr Generated.RotTypes.rkrParseHashLen (rkrCurve (leDec (b.take 4))) = .ok hl)
+    (hfull : 4 + (if rkrCount (leDec (b.take 4)) > 1 then hl * rkrCount (leDec (b.take 4)) else 0) + hl * 2 ≤ b.length) :
+    rkrExport r = .ok (b.take n) ∧ n ≤ b.length ∧ r.flags = leDec (b.take 4) ∧
+    n = 4 + (if rkrCount r.flags > 1 then hl * rkrCount r.flags else 0) + hl * 2 := by
+  obtain ⟨h1, h2, h3, h4, _⟩ := rkrParse_inv c b r n h hl hhl hfull
+  exact ⟨h1, h2, h3, h4⟩
+
+/-- certificate block v2.1 WITHOUT ISK certificate (CA flag set in the root key record), ANY input `CertBlockV21.parse` accepts with a complete
+    record: the parsed block has no ISK certificate; re-exporting it gives `chdr ‖ minor ‖ major ‖ (12 + n) ‖ record bytes`, which is the first
+    `12 + n` input bytes exactly when the input's `cert_block_size` word was `12 + n` (the parser never looks at that word) -/
+theorem certblock_v21_ca_parse_canonical (pointOk : Bytes → Bool) (data : Bytes) (cb : CertBlockV21)
+    (h : parseV21Block c pointOk data = .ok cb) (hca : rkrCa (leDec ((data.drop 12).take 4)) = true) (hl : Nat)
+    (hhl : lookupOr Generated.RotTypes.rkrParseHashLen (rkrCurve (leDec ((data.drop 12).take 4))) = .ok hl)
+    (hfull : 12 + 4 + (if rkrCount (leDec ((data.drop 12).take 4)) > 1 then hl * rkrCount (leDec ((data.drop 12).take 4)) else 0) + hl * 2
+      ≤ data.length) :
+    ∃ n, cb.isk = none ∧ n ≤ (data.drop 12).length ∧
+      n = 4 + (if rkrCount cb.rkr.flags > 1 then hl * rkrCount cb.rkr.flags else 0) + hl * 2 ∧
+      exportV21Block cb = .ok (Gen.cbV21Magic ++ leEnc 2 cb.minor ++ leEnc 2 cb.major ++ leEnc 4 (12 + n) ++ (data.drop 12).take n) ∧
+      (leDec ((data.drop 8).take 4) = 12 + n → exportV21Block cb = .ok (data.take (12 + n))) :=
+  parseV21Block_ca_inv c pointOk data cb h hca hl hhl hfull
+
+/-- The plain statement `parse b = ok cb → export cb = b` is FALSE for v2.1 as well: the parser never looks at the `cert_block_size` word, the
+    export recomputes it (observed on the real classes by the stream `parse_canonical`: a CA block with another size word is accepted and
+    re-exported with the recomputed word).  With an ISK certificate further hypotheses would be needed (canonical ISK flags word, no gap before
+    the signature, full-length signature) - not proved here.  Non-vacuity of the hypotheses of the two theorems above: a block with the CA
+    flag, one P-256 key and a size word of 0 -/
+def cb21RawEx : Bytes :=
+  [0x63, 0x68, 0x64, 0x72, 1, 0, 2, 0, 0, 0, 0, 0] ++ [0x11, 0, 0, 0x80] ++ List.replicate 64 5
+
+example : rkrCa (leDec ((cb21RawEx.drop 12).take 4)) = true ∧
+    lookupOr Generated.RotTypes.rkrParseHashLen (rkrCurve (leDec ((cb21RawEx.drop 12).take 4))) = .ok 32 ∧
+    12 + 4 + (if rkrCount (leDec ((cb21RawEx.drop 12).take 4)) > 1 then 32 * rkrCount (leDec ((cb21RawEx.drop 12).take 4)) else 0) + 32 * 2
+      ≤ cb21RawEx.length := by decide
 
 /-! ## 6g. Certificate block v1 inside an SB 2.1 file: what the loader model of C04 reads (phase 3) -/
 
